@@ -10,7 +10,7 @@ import (
 
 	gstat "gonum.org/v1/gonum/stat"
 
-	"verif/harness/internal/core"
+	"gonum.org/v1/gonum/verifharness/internal/core"
 )
 
 // code->spec: seeded weighted integer samples of up to maxn entries (sizes TLC
